@@ -56,13 +56,26 @@ def firstSetup : List (List Attr) → Option String
     | some v => some v
     | none => firstSetup rest
 
-/-- The role block of `set_remote_description`: only acts while `dtls_role` is `None`. -/
+/-- The role block of `set_remote_description` (as changed by the SDP fixes "the DTLS role follows a later
+description until the DTLS transport exists" and "… derived from a session-level a=setup when no media
+section carries one"): once a role is set **and** the DTLS transport exists (`started`) it stays; until then
+every description re-derives it — direct modes are always client, WebRTC reads the first media-level
+`a=setup` that has a value, else the session-level one; a description without any keeps the role. -/
+def roleAfterRemoteFull (mode : Mode) (cur : Option Bool) (started : Bool) (sections : List (List Attr))
+    (sessionSetup : Option String) : Option Bool :=
+  if cur.isSome && started then cur
+  else
+    let new : Option Bool :=
+      if mode = .rtp ∨ mode = .srtp then some true
+      else ((firstSetup sections).orElse fun _ => sessionSetup).map isClientOfRemoteSetup
+    match new with
+    | some r => some r
+    | none => cur
+
+/-- … during the offer/answer exchange (no DTLS transport yet, descriptions built by rustrtc carry
+`a=setup` at media level only) -/
 def roleAfterRemote (mode : Mode) (cur : Option Bool) (sections : List (List Attr)) : Option Bool :=
-  match cur with
-  | some r => some r
-  | none =>
-    if mode = .rtp ∨ mode = .srtp then some true
-    else (firstSetup sections).map isClientOfRemoteSetup
+  roleAfterRemoteFull mode cur false sections none
 
 inductive SdpType | offer | answer | pranswer
 deriving DecidableEq, Repr
